@@ -655,8 +655,11 @@ class Summariser:
             s.env[h.name] = ("excobj", tid)
         s.excstack = s.excstack + (info,)
         res = self.block(h.body, s)
-        for s2, _ in res:
+        for s2, o2 in res:
             s2.excstack = s2.excstack[:-1] if s2.excstack else ()
+            if o2[0] != "raise":
+                # the handler completed without raising: the exception is swallowed
+                self.emit(s2, "ENDCATCH", {"tid": tid, "handler": idx, "how": o2[0]}, h)
         return res
 
     # ------------------------------------------------------------ expressions
